@@ -263,7 +263,8 @@ def gen_plan(rng, profile: dict, seed: int) -> dict:
             seg = {
                 "epochs": epochs, "opt": opt, "lr": lr, "wd": rng.choice([1e-2, 0.1]), "ndev": ndev, "B": B, "L": nb * B,
                 "loss": rng.choice(["smse", "smse", "timestep"]), "key": rng.getrandbits(31), "val": rng.random() < 0.3, "wandb": rng.random() < 0.3,
-                "wandb_fail_at": rng.choice([None, None, 2]), "clock": rng.choice(["none", "none", "jumps"]),
+                "wandb_fail_at": rng.choice([None, None, 2, 11]), "wandb_fail_kind": rng.choice(["slow", "raise"]), "clock": rng.choice(["none", "none", "jumps"]),
+                "disk_fail": rng.choice([None, None, None, {"at": rng.randint(1, 60), "kind": rng.choice(["enospc", "eio", "short"])}]),
                 "crash": crash, "restart_key": rng.getrandbits(31),
             }
             segs.append(seg)
@@ -380,7 +381,11 @@ def _exec_train(plan, ctx):
             world.clock.reads = 0
         world.wandb.fail_at = {}
         if seg["wandb"] and seg["wandb_fail_at"]:
-            world.wandb.fail_at = {world.wandb.calls + seg["wandb_fail_at"]: "slow"}
+            world.wandb.fail_at = {world.wandb.calls + seg["wandb_fail_at"]: seg.get("wandb_fail_kind", "slow")}
+        world.disk.write_faults = {}
+        if seg.get("disk_fail"):
+            world.disk.write_faults = {world.disk.write_calls + seg["disk_fail"]["at"]: seg["disk_fail"]["kind"]}
+        hard0 = world.faults.get("net_error", 0) + world.faults.get("disk_enospc", 0) + world.faults.get("disk_eio", 0)
         before = model
         mal = map_and_loss_smse if seg["loss"] == "smse" else map_and_loss_timestep
         kinds.append(f"train:{seg['opt']}:n{seg['ndev']}:{'ckpt' if seg['epochs'] >= 10 else 'nockpt'}")
@@ -399,12 +404,20 @@ def _exec_train(plan, ctx):
                     return _result(world, evals, counters, kinds, violations, discarded=True)
             except SimCrash:
                 crashed = True
+            except Exception as e:
+                hard1 = world.faults.get("net_error", 0) + world.faults.get("disk_enospc", 0) + world.faults.get("disk_eio", 0)
+                if hard1 > hard0:
+                    # an injected environment error (wandb unreachable, disk full) escaped the loop: the process dies
+                    crashed = True
+                    bump("died_of_unhandled_injected_error")
+                else:
+                    raise
             except (FloatingPointError,) as e:
                 bump("discarded_nonfinite")
                 return _result(world, evals, counters, kinds, violations, discarded=True)
         if crashed:
             kinds.append("crash")
-            outcome = world.disk.crash(make_rng(seg["crash"]["seed"]))
+            outcome = world.disk.crash(make_rng((seg.get("crash") or {}).get("seed", seg["restart_key"])))
             fresh = zoo.build_model(cfg, jax.random.PRNGKey(seg["restart_key"]))
             try:
                 with world:
